@@ -364,7 +364,16 @@ class ModCtx(object):
                 elif isinstance(s, ast.Assign):
                     for t in s.targets:
                         if isinstance(t, ast.Name):
-                            b[t.id] = ("expr", s.value)
+                            prev = b.get(t.id)
+                            if isinstance(prev, tuple) and prev[0] in ("expr", "seq") and any(isinstance(x, ast.Name) and x.id == t.id for x in ast.walk(s.value)):
+                                # a re-binding that reads the previous value (x = x.union(..)): the bindings are evaluated in module order
+                                b[t.id] = ("seq", (list(prev[1]) if prev[0] == "seq" else [("=", prev[1])]) + [("=", s.value)])
+                            else:
+                                b[t.id] = ("expr", s.value)
+                elif isinstance(s, ast.AugAssign) and isinstance(s.target, ast.Name):
+                    prev = b.get(s.target.id)
+                    if isinstance(prev, tuple) and prev[0] in ("expr", "seq"):
+                        b[s.target.id] = ("seq", (list(prev[1]) if prev[0] == "seq" else [("=", prev[1])]) + [(s.op, s.value)])
                 elif isinstance(s, ast.AnnAssign) and isinstance(s.target, ast.Name) and s.value is not None:
                     b[s.target.id] = ("expr", s.value)
                 elif isinstance(s, ast.Try):
@@ -411,6 +420,16 @@ class ModCtx(object):
                 base = self.package(b[2])
                 mod = base + ("." + mod if mod else "")
             v = self.world.resolve(mod + "." + b[3])
+        elif b[0] == "seq":
+            v = None
+            try:
+                for k, (op, val) in enumerate(b[1]):
+                    if k:
+                        self.cache[name] = v          # the value bound so far is what the next binding reads
+                    nv = it.ev(val, Frame(self))
+                    v = nv if op == "=" else it.binop(it._IBIN, op, v, nv, val)
+            finally:
+                self.cache.pop(name, None)
         else:
             v = it.ev(b[1], Frame(self))
         self.cache[name] = v
@@ -451,6 +470,18 @@ class World(object):
         self.ctxs = {}
         self.interp = Interp(self, fuel)
         self.automocks = {}
+        # the arithmetic functions of the `operator` module follow the operator protocol of repository classes (operator.mul(x, y) is x * y)
+        op = self.overrides.get("operator")
+        if isinstance(op, Namespace) and not getattr(op, "_sa_interp_bound", False):
+            it = self.interp
+            arith = {"add": ast.Add, "sub": ast.Sub, "mul": ast.Mult, "truediv": ast.Div, "floordiv": ast.FloorDiv, "mod": ast.Mod, "pow": ast.Pow}
+            bound = {k: getattr(op, k) for k in dir(op) if not k.startswith("_")}
+            for nm, node_cls in arith.items():
+                bound[nm] = (lambda a, b, _c=node_cls: it.binop(it._BIN, _c(), a, b, None))
+            bound["neg"] = lambda a: (it._dunder(a, "__neg__")() if isinstance(a, Instance) and it._dunder(a, "__neg__") is not None else -a)
+            ns = Namespace("operator", **bound)
+            ns._sa_interp_bound = True
+            self.overrides["operator"] = ns
 
     # -- registry
     def override(self, dotted_name):
@@ -548,7 +579,11 @@ class Interp(object):
     def _dunder(self, obj, name):
         """the bound special method `name` an instance of a repository class defines (own or inherited from a repository class), else None."""
         if isinstance(obj, Instance):
-            m, _c = obj._cls.find(name)
+            m, c = obj._cls.find(name)
+            hops = 0
+            while isinstance(m, tuple) and m[0] == "expr" and isinstance(m[1], ast.Name) and c is not None and hops < 4:
+                m, c = c.find(m[1].id)          # class-level alias: __truediv__ = __div__
+                hops += 1
             if isinstance(m, Closure) and m.kind == "function":
                 return m.bind(obj)
         return None
@@ -946,6 +981,11 @@ class Interp(object):
         v = self.ev(n.operand, fr)
         if isinstance(n.op, ast.Not):
             return not self.truth(v, n)
+        if isinstance(v, Instance):
+            m = self._dunder(v, {ast.USub: "__neg__", ast.UAdd: "__pos__", ast.Invert: "__invert__"}.get(type(n.op), "?"))
+            if m is None:
+                raise ProgramError(TypeError("bad operand type for unary %s: %r" % (type(n.op).__name__, v)), getattr(n, "lineno", None))
+            return m()
         self._plain(v, n)
         if isinstance(n.op, ast.USub):
             return -v
@@ -966,7 +1006,25 @@ class Interp(object):
              ast.Mod: operator.imod, ast.Pow: operator.ipow, ast.BitAnd: operator.iand, ast.BitOr: operator.ior, ast.BitXor: operator.ixor,
              ast.LShift: operator.ilshift, ast.RShift: operator.irshift}
 
+    _OPNAME = {ast.Add: "add", ast.Sub: "sub", ast.Mult: "mul", ast.Div: "truediv", ast.FloorDiv: "floordiv", ast.Mod: "mod", ast.Pow: "pow",
+               ast.BitAnd: "and", ast.BitOr: "or", ast.BitXor: "xor", ast.LShift: "lshift", ast.RShift: "rshift"}
+
     def binop(self, table, op, a, b, node):
+        if isinstance(a, Instance) or isinstance(b, Instance):
+            # the operator protocol of repository classes: __iop__ (augmented form only), __op__ of the left operand, __rop__ of the right one
+            nm = self._OPNAME.get(type(op))
+            tried = []
+            if nm is not None:
+                if table is self._IBIN:
+                    tried.append((a, "__i%s__" % nm, b))
+                tried += [(a, "__%s__" % nm, b), (b, "__r%s__" % nm, a)]
+            for obj, meth, arg in tried:
+                m = self._dunder(obj, meth)
+                if m is not None:
+                    r = m(arg)
+                    if r is not NotImplemented:
+                        return r
+            raise ProgramError(TypeError("unsupported operand type(s) for %s: %r and %r" % (type(op).__name__, a, b)), getattr(node, "lineno", None))
         self._plain(a, node)
         self._plain(b, node)
         f = table.get(type(op))
@@ -1664,7 +1722,7 @@ def numpy_namespace():
                    diff=lambda a: NDArr([y - x for x, y in zip(_seq(a)[:-1], _seq(a)[1:])]),
                    sum=lambda a: sum(_seq(a)), any=lambda a: any(_seq(a)), all=lambda a: all(_seq(a)),
                    count_nonzero=lambda a: sum(1 for x in _seq(a) if x),
-                   int32="int32", int64="int64", intc="intc", int_="int64", float64="float64", bool_="bool", uint8="uint8",
+                   int32="int32", int64="int64", intc="intc", int_="int64", float64="float64", float32="float32", float16="float16", int16="int16", bool_="bool", uint8="uint8",
                    pi=math.pi, inf=float("inf"), nan=float("nan"), ndarray=NDArr,
                    abs=lambda a: NDArr([abs(x) for x in a.v]) if isinstance(a, NDArr) else abs(a), sqrt=math.sqrt, isnan=lambda x: x != x)
     return ns
